@@ -85,6 +85,8 @@ type Exec struct {
 	nscope int
 	prop string
 	callScope string
+	inlined  map[string]bool // contract-less helpers executed inline
+	inlWhy   string
 }
 
 func (x *Exec) freshVar(hint string, s Sort) *Term {
